@@ -392,8 +392,8 @@ func timeNow(fr *frame, a []value) value {
 		const u2i = (1969*365 + 1969/4 - 1969/100 + 1969/400) * 86400
 		return structure{uint64(0), int64(1700000000 + u2i), loc}
 	}
-	sec := i.fresh(64, types.Int64)
-	ns := i.fresh(32, types.Uint32)
+	sec := i.freshEnv(64, types.Int64)
+	ns := i.freshEnv(32, types.Uint32)
 	i.assume(ts.And(ts.Bin(OpSle, ts.Const(64, 0), sec.t), ts.Bin(OpSlt, sec.t, ts.Const(64, 1<<33))))
 	i.assume(ts.Bin(OpUlt, ns.t, ts.Const(32, 1000000000)))
 	pkg := i.prog.ImportedPackage("time")
@@ -523,9 +523,9 @@ func init() {
 	externals["(*time.Timer).Stop"] = func(fr *frame, a []value) value { return true }
 	externals["(*time.Timer).Reset"] = func(fr *frame, a []value) value { return true }
 	// the mask key source: unconstrained
-	externals["math/rand.Uint32"] = func(fr *frame, a []value) value { return fr.i.fresh(32, types.Uint32) }
+	externals["math/rand.Uint32"] = func(fr *frame, a []value) value { return fr.i.freshEnv(32, types.Uint32) }
 	externals["math/rand.Int63"] = func(fr *frame, a []value) value {
-		s := fr.i.fresh(64, types.Int64)
+		s := fr.i.freshEnv(64, types.Int64)
 		fr.i.assume(fr.i.ts.Bin(OpSle, fr.i.ts.Const(64, 0), s.t))
 		return s
 	}
